@@ -68,6 +68,7 @@ PROPS = {
             "thorough": [{"flavour": "asan", "runs": 150000, "seconds": 1500},
                          {"flavour": "tsan", "runs": 10000, "seconds": 300}],
         },
+        "xzsim_extra": {"what": "flush", "quick": 800, "thorough": 12000},
         "nontrivial": "features",
         "level_text": "Seeded search over action histories (SYNC_FLUSH / FULL_FLUSH / FULL_BARRIER at arbitrary offsets, no new "
                       "input, back-to-back; lzma_filters_update between Blocks and lc/lp/pb changes after a sync flush; refused "
